@@ -26,10 +26,13 @@ VARIABLES
   phase,   \* "idle" | "run" | "ret" | "fin"
   call,    \* the call line of the current trace
   locked,  \* did the lock-step comparison of the current trace succeed so far
-  prev,    \* [grp, ret, call] of the previous trace (C09 / C13 / C05 pair comparisons)
-  vd       \* verdicts so far
+  prev     \* [grp, ret, call] of the previous trace (C09 / C13 / C05 pair comparisons)
 
-tvars == <<vars, l, phase, call, locked, prev, vd>>
+tvars == <<vars, l, phase, call, locked, prev>>
+
+\* verdicts are accumulated in TLC register 1 (not part of the state: the search is a single
+\* linear behaviour, checked with one worker), and written out by TraceFinish
+Emit(vs) == TLCSet(1, TLCGet(1) \o vs)
 
 \* the event on line i (call/ret lines carry no event fields)
 Got(i) == IF Trace[i].e \in {"call", "ret"} THEN [e |-> Trace[i].e, a |-> "", b |-> "", n |-> 0]
@@ -42,7 +45,8 @@ V(prop, kind, id, line, detail) == [prop |-> prop, kind |-> kind, id |-> id, lin
 NoPrev == [grp |-> "", pair |-> "", issues |-> <<>>, dest |-> <<>>, nilres |-> TRUE]
 
 TraceInit ==
-  /\ l = 1 /\ phase = "idle" /\ call = [id |-> ""] /\ locked = TRUE /\ prev = NoPrev /\ vd = <<>>
+  /\ TLCSet(1, <<>>)
+  /\ l = 1 /\ phase = "idle" /\ call = [id |-> ""] /\ locked = TRUE /\ prev = NoPrev
   /\ case = [id |-> "", mode |-> "parse", fe |-> "map"] /\ stack = <<>> /\ ctxs = <<>> /\ issues = <<>>
   /\ dest = EmptyF /\ ev = NoEv /\ done = TRUE
 
@@ -54,7 +58,7 @@ TraceCall ==
        /\ stack' = <<Frame(c.schema, c.input, <<>>, <<>>, 1, c.fe)>>
        /\ ctxs' = <<NewCtx>> /\ issues' = <<>> /\ dest' = InitDestOf(c) /\ ev' = NoEv /\ done' = FALSE
   /\ call' = Trace[l] /\ locked' = TRUE /\ phase' = "run" /\ l' = l + 1
-  /\ UNCHANGED <<prev, vd>>
+  /\ UNCHANGED prev
 
 \* ---- lock-step ------------------------------------------------------------
 \* would running the PostTransforms be the step that explains the next line?
@@ -81,7 +85,7 @@ TraceStep ==
      \/ ev'.e = "ret" /\ l <= Len(Trace) /\ Trace[l].e = "ret" /\ l' = l
      \/ ev'.e \notin {"none", "ret"} /\ l <= Len(Trace) /\ Trace[l].e \notin {"call", "ret"}
         /\ EvEq(Trace[l], ev') /\ l' = l + 1
-  /\ UNCHANGED <<phase, call, locked, prev, vd>>
+  /\ UNCHANGED <<phase, call, locked, prev>>
 
 NextRet(i) == CHOOSE j \in i..Len(Trace) : Trace[j].e = "ret" /\ \A k \in i..(j - 1) : Trace[k].e # "ret"
 
@@ -93,16 +97,16 @@ CanEmitSameId == ENABLED (MachineStep /\ ev'.e = Got(l).e /\ ev'.a = Got(l).a)
 Attribution ==
   LET got == Trace[l].e
       isCb(k) == k \in {"test", "pt"}
-  IN IF got \in {"pt"} \/ CanEmit("pt") THEN "C12"
+  IN IF got = "field" /\ CanEmitSameId THEN "C10"          \* same field, resolved under a different input key
+     ELSE IF got \in {"pt"} \/ CanEmit("pt") THEN "C12"
      ELSE IF got = "test" /\ CanEmitSameId THEN "C12"       \* same callback, wrong argument / value / context
      ELSE IF got = "test" \/ CanEmit("test") THEN "C02T"    \* a test ran that should not, or did not run
      ELSE "C02"
 
 TraceMismatch ==
   /\ phase = "run" /\ ~done /\ ~ENABLED TraceStep
-  /\ vd' = Append(vd, V(Attribution, "lockstep:" \o Trace[l].e, call.id, l,
-                        [got |-> Got(l),
-                         node |-> Top.node.k, pc |-> Top.pc, path |-> PathStr(Top.ip)]))
+  /\ Emit(<<V(Attribution, "lockstep:" \o Trace[l].e, call.id, l,
+              [got |-> Got(l), node |-> Top.node.k, pc |-> Top.pc, path |-> PathStr(Top.ip)])>>)
   /\ l' = NextRet(l) /\ phase' = "ret" /\ locked' = FALSE
   /\ UNCHANGED <<vars, call, prev>>
 
@@ -118,7 +122,7 @@ OnlyReq(s) == SelectSeq(s, LAMBDA i : i.code \in ReqCodes)
 \* every issue path the schema/input can produce (C10: an issue is addressed by such a path)
 Differs(f, g, paths) == {q \in paths : q \notin DOMAIN f \/ q \notin DOMAIN g \/ f[q] # g[q]}
 
-RetVerdicts(R, c, lineNo) ==
+RetVerdicts(R, c, lineNo, tag) ==
   LET ri     == Proj(R.issues)
       ref    == RefIssuesOf(c)
       rd     == DestFn(R)
@@ -144,6 +148,9 @@ RetVerdicts(R, c, lineNo) ==
         \* C04: required / not_nil issues; absent nodes hold default or stay untouched
         [bad |-> ok /\ BagOf(OnlyReq(ri)) # BagOf(OnlyReq(ref)),
          v |-> mk("C04", "required-issues", [got |-> OnlyReq(ri), want |-> OnlyReq(ref)])],
+        \* rows of the C04 decision table: default applied / destination untouched, whatever else failed
+        [bad |-> ok /\ tag = "c04" /\ rd # refd,
+         v |-> mk("C04", "dest", [diff |-> Differs(rd, refd, DOMAIN rd \cup DOMAIN refd)])],
         \* C05: catching nodes are silent, hold catch iff they failed, and change nothing else
         [bad |-> ok /\ \E k \in DOMAIN ri : ~IsPTIssue(ri[k]) /\ ri[k].path \in cp,
          v |-> mk("C05", "issue-at-catching-node", ri)],
@@ -156,17 +163,29 @@ RetVerdicts(R, c, lineNo) ==
         [bad |-> ok /\ R.ismap /\ R.issues # <<>> /\
                    ~(Len(R.first) = 1 /\ R.first[1].code = R.firstev.a /\ R.first[1].path = R.firstev.b),
          v |-> mk("C10", "first", [first |-> R.first, firstev |-> R.firstev])],
-        [bad |-> ok /\ R.ismap /\ R.issues = <<>> /\ R.first # <<>>, v |-> mk("C10", "first-without-issue", R.first)]
+        [bad |-> ok /\ R.ismap /\ R.issues = <<>> /\ R.first # <<>>, v |-> mk("C10", "first-without-issue", R.first)],
+        [bad |-> ok /\ ~R.sanok, v |-> mk("C10", "sanitize", R.issues)]
       >>
   IN SelectSeq(checks, LAMBDA x : x.bad)
 
 \* runs of the same case under different visit orders must agree (C09)
 GroupVerdicts(R, lineNo) ==
-  IF /\ prev.grp = call.grp /\ call.pair = "" /\ prev.pair = ""
+  IF /\ prev.grp = call.grp /\ call.pair = prev.pair /\ call.pair \in {"", "c04"}
      /\ (BagOf(Proj(R.issues)) # BagOf(Proj(prev.issues)) \/ R.dest # prev.dest \/ R.nilres # prev.nilres)
      /\ \A k1 \in DOMAIN R.issues : ~IsPTIssue(R.issues[k1])
      /\ \A k2 \in DOMAIN prev.issues : ~IsPTIssue(prev.issues[k2])
   THEN <<V("C09", "order-dependent", call.id, lineNo, [a |-> Proj(prev.issues), b |-> Proj(R.issues)])>>
+  ELSE <<>>
+
+\* C13: Validate(&v) and Parse(toMap(v), &fresh) of a fully populated value agree
+Proj4(s) == [i \in DOMAIN s |-> [path |-> s[i].path, code |-> s[i].code, ty |-> s[i].ty, msg |-> s[i].msg]]
+\* fields the schema does not name are not part of the decoded map: not compared
+DropExtra(d) == SelectSeq(d, LAMBDA e : e.p = <<>> \/ e.p[Len(e.p)] # "$extra")
+PairVerdicts(R, lineNo) ==
+  IF /\ prev.grp = call.grp /\ prev.pair = "validate13" /\ call.pair = "parse13"
+     /\ (BagOf(Proj4(R.issues)) # BagOf(Proj4(prev.issues)) \/ DropExtra(R.dest) # DropExtra(prev.dest) \/ R.nilres # prev.nilres)
+  THEN <<V("C13", "modes-disagree", call.id, lineNo,
+           [validate |-> Proj4(prev.issues), parse |-> Proj4(R.issues), destEqual |-> (DropExtra(R.dest) = DropExtra(prev.dest))])>>
   ELSE <<>>
 
 TraceRet ==
@@ -174,11 +193,11 @@ TraceRet ==
      \/ phase = "ret"
   /\ l <= Len(Trace) /\ Trace[l].e = "ret"
   /\ LET R == Trace[l]
-         rv == RetVerdicts(R, call.case, l)
+         rv == RetVerdicts(R, call.case, l, call.pair)
          \* when the lock-step succeeded the machine's own final state must equal the logged one
          mv == IF locked /\ R.panic = "" /\ (BagOf(Proj(R.issues)) # BagOf(issues) \/ DestFn(R) # dest)
                THEN <<V("C02M", "machine-final", call.id, l, [issues |-> issues])>> ELSE <<>>
-     IN vd' = vd \o [i \in DOMAIN rv |-> rv[i].v] \o mv \o GroupVerdicts(R, l)
+     IN Emit([i \in DOMAIN rv |-> rv[i].v] \o mv \o GroupVerdicts(R, l) \o PairVerdicts(R, l))
   /\ prev' = [grp |-> call.grp, pair |-> call.pair, issues |-> Trace[l].issues, dest |-> Trace[l].dest, nilres |-> Trace[l].nilres]
   /\ l' = l + 1 /\ phase' = "idle"
   /\ UNCHANGED <<vars, call, locked>>
@@ -190,9 +209,9 @@ TraceEarlyRet ==
 
 TraceFinish ==
   /\ phase = "idle" /\ l = Len(Trace) + 1
-  /\ ndJsonSerialize(VerdictFile, vd \o <<V("END", "end", "", Len(Trace), Len(vd))>>)
+  /\ ndJsonSerialize(VerdictFile, TLCGet(1) \o <<V("END", "end", "", Len(Trace), Len(TLCGet(1)))>>)
   /\ phase' = "fin"
-  /\ UNCHANGED <<vars, l, call, locked, prev, vd>>
+  /\ UNCHANGED <<vars, l, call, locked, prev>>
 
 TraceNext == TraceCall \/ TraceStep \/ TraceMismatch \/ TraceRet \/ TraceFinish
 
